@@ -112,7 +112,7 @@ theorem bankCall_views {c c' : Ctx} {k : XKind} {src dst : Addr} {coins : List C
   exact ⟨rfl, rfl⟩
 
 theorem rel_loop (aid N : Nat) (now : Int) (l : List VQ) (i : Nat) (a : Auction) (effs : List GEff)
-    (hid : a.id = aid) :
+    (hid : a.id = aid) (hq : ∀ q ∈ l, q.auction = aid) :
     ∃ a' E, ReleaseVestingPayingCoin.loop1 now (N : Int) l (i : Int) a effs = Loop.done (a', effs ++ E) ∧
       ∀ (c : Ctx) (w : AView), c.s.views[aid]? = some w → w.a = a → c.s.now = now →
         releaseLoop c aid a.auctioneer N i l = runSettle aid E c := by
@@ -121,6 +121,8 @@ theorem rel_loop (aid N : Nat) (now : Int) (l : List VQ) (i : Nat) (a : Auction)
     exact ⟨a, [], by simp [ReleaseVestingPayingCoin.loop1], by intros; simp [releaseLoop]⟩
   | cons q rest ih =>
     have hcast : ((i : Int) + 1) = ((i + 1 : Nat) : Int) := by omega
+    have hqa : q.auction = aid := hq q (by simp)
+    have hq' : ∀ q' ∈ rest, q'.auction = aid := fun q' h => hq q' (by simp [h])
     unfold ReleaseVestingPayingCoin.loop1
     simp only [tie_ShouldRelease, hcast]
     by_cases hc : q.release ≤ now ∧ q.released = false
@@ -132,7 +134,7 @@ theorem rel_loop (aid N : Nat) (now : Int) (l : List VQ) (i : Nat) (a : Auction)
         obtain ⟨a', E, h1, h2⟩ := ih (i + 1) { a with status := Status.finished }
           (effs ++ [GEff.mk GName.sendCoins [GVal.addr (Addr.vest a.id), GVal.nat a.auctioneer, GVal.coin (Go.vqCoin q)]]
             ++ [GEff.mk GName.vqSet [GVal.int (q.auction : Int), GVal.int q.release, GVal.vq { q with released := true }]]
-            ++ [GEff.mk GName.auctionSet [GVal.int (a.id : Int), GVal.auction { a with status := Status.finished }]]) hid
+            ++ [GEff.mk GName.auctionSet [GVal.int (a.id : Int), GVal.auction { a with status := Status.finished }]]) hid hq'
         refine ⟨a', [GEff.mk GName.sendCoins [GVal.addr (Addr.vest a.id), GVal.nat a.auctioneer, GVal.coin (Go.vqCoin q)],
             GEff.mk GName.vqSet [GVal.int (q.auction : Int), GVal.int q.release, GVal.vq { q with released := true }],
             GEff.mk GName.auctionSet [GVal.int (a.id : Int), GVal.auction { a with status := Status.finished }]] ++ E, ?_, ?_⟩
@@ -141,7 +143,7 @@ theorem rel_loop (aid N : Nat) (now : Int) (l : List VQ) (i : Nat) (a : Auction)
           conv => lhs; unfold releaseLoop
           have hcm : (q.release ≤ c.s.now ∧ (!q.released) = true) := by grind
           simp only [hcm, and_self, if_true, List.cons_append, List.nil_append, runSettle_cons, applySettle, dstOf,
-            hid, bind, Except.bind, vqCoin_denom, vqCoin_amt]
+            hid, hqa, bind, Except.bind, vqCoin_denom, vqCoin_amt]
           cases hmk : mkCoins c q.denom q.amt with
           | error f => rfl
           | ok coins =>
@@ -156,13 +158,13 @@ theorem rel_loop (aid N : Nat) (now : Int) (l : List VQ) (i : Nat) (a : Auction)
               have h3 := h2 (c'.setView aid { w with a := { w.a with status := .finished }, vqs := setVQ w.vqs { q with released := true } })
                 { w with a := { w.a with status := .finished }, vqs := setVQ w.vqs { q with released := true } }
                 (view_setView hv') rfl (by rw [setView_now]; exact hn')
-              simp only [hlast, hid] at h3 ⊢
+              simp only [hlast, hid, hqa] at h3 ⊢
               exact h3
       · have hl : ¬ ((i : Int) = (N : Int) - 1) := by omega
         simp only [hl, decide_false, Bool.false_eq_true, if_false]
         obtain ⟨a', E, h1, h2⟩ := ih (i + 1) a
           (effs ++ [GEff.mk GName.sendCoins [GVal.addr (Addr.vest a.id), GVal.nat a.auctioneer, GVal.coin (Go.vqCoin q)]]
-            ++ [GEff.mk GName.vqSet [GVal.int (q.auction : Int), GVal.int q.release, GVal.vq { q with released := true }]]) hid
+            ++ [GEff.mk GName.vqSet [GVal.int (q.auction : Int), GVal.int q.release, GVal.vq { q with released := true }]]) hid hq'
         refine ⟨a', [GEff.mk GName.sendCoins [GVal.addr (Addr.vest a.id), GVal.nat a.auctioneer, GVal.coin (Go.vqCoin q)],
             GEff.mk GName.vqSet [GVal.int (q.auction : Int), GVal.int q.release, GVal.vq { q with released := true }]] ++ E, ?_, ?_⟩
         · rw [h1]; simp only [List.append_assoc, List.cons_append, List.nil_append]
@@ -170,7 +172,7 @@ theorem rel_loop (aid N : Nat) (now : Int) (l : List VQ) (i : Nat) (a : Auction)
           conv => lhs; unfold releaseLoop
           have hcm : (q.release ≤ c.s.now ∧ (!q.released) = true) := by grind
           simp only [hcm, and_self, if_true, List.cons_append, List.nil_append, runSettle_cons, applySettle, dstOf,
-            hid, bind, Except.bind, vqCoin_denom, vqCoin_amt]
+            hid, hqa, bind, Except.bind, vqCoin_denom, vqCoin_amt]
           cases hmk : mkCoins c q.denom q.amt with
           | error f => rfl
           | ok coins =>
@@ -182,10 +184,12 @@ theorem rel_loop (aid N : Nat) (now : Int) (l : List VQ) (i : Nat) (a : Auction)
               have hn' : c'.s.now = now := by rw [(bankCall_views hb).2]; exact hnow
               simp only [Ctx.view, hv', view_setView hv', hlast, pure, Except.pure, if_false]
               subst hwa
-              exact h2 (c'.setView aid { w with vqs := setVQ w.vqs { q with released := true } })
+              have h3 := h2 (c'.setView aid { w with vqs := setVQ w.vqs { q with released := true } })
                 { w with vqs := setVQ w.vqs { q with released := true } }
                 (view_setView hv') rfl (by rw [setView_now]; exact hn')
-    · obtain ⟨a', E, h1, h2⟩ := ih (i + 1) a effs hid
+              simp only [hqa] at h3 ⊢
+              exact h3
+    · obtain ⟨a', E, h1, h2⟩ := ih (i + 1) a effs hid hq'
       refine ⟨a', E, ?_, ?_⟩
       · have : (decide (q.release ≤ now) && !q.released) = false := by grind
         simp only [this, Bool.false_eq_true, if_false]
@@ -249,12 +253,14 @@ theorem tie_ApplyVestingSchedules (c : Ctx) (aid : Nat) (v : AView) (hv : c.s.vi
 
 /-- **ReleaseVestingPayingCoin.** -/
 theorem tie_ReleaseVestingPayingCoin (c : Ctx) (aid : Nat) (v : AView) (hv : c.s.views[aid]? = some v)
-    (hid : v.a.id = aid) :
-    releaseVesting c aid = Go.runSettlePlan c aid (Gen.ReleaseVestingPayingCoin v.a v.vqs c.s.now) := by
-  obtain ⟨a', E, h1, h2⟩ := rel_loop aid v.vqs.length c.s.now v.vqs 0 v.a [] hid
+    (hid : v.a.id = aid) (hq : ∀ q ∈ v.vqs, q.auction = aid) :
+    releaseVesting c aid = Go.runSettlePlan c aid (Gen.ReleaseVestingPayingCoin v.a (rdVqs c.s) c.s.now) := by
+  obtain ⟨a', E, h1, h2⟩ := rel_loop aid v.vqs.length c.s.now v.vqs 0 v.a [] hid hq
   unfold releaseVesting Gen.ReleaseVestingPayingCoin
   have h0 : ((0 : Nat) : Int) = 0 := rfl
   simp only [h0] at h1
+  have hV : rdVqs c.s (v.a.id : Int) = v.vqs := by simp [rdVqs, hid, hv]
+  simp only [hV]
   simp only [Ctx.view, hv, h1, runSettlePlan, List.nil_append, bind, Except.bind]
   rw [h2 c v hv rfl rfl]
   cases runSettle aid E c <;> simp [pure, Except.pure]
